@@ -92,6 +92,10 @@ theorem DInv_step {s s' : State} {t : Tid} {ch : Nat} (hD : DInv s) (h : step s 
       simp only [step, hg, hpc] at h; cases h
       have hg' := getT_notifyOneW hg (by simp [isParked, hpc]) ch
       exact DInv_setT (DInv_notifyOne hD ch) hg' _ _ rfl rfl (by intro h; cases h)
+    case procPbNotify =>
+      simp only [step, hg, hpc] at h; cases h
+      have hg' := getT_notifyOneW hg (by simp [isParked, hpc]) ch
+      exact DInv_setT (DInv_notifyOne hD ch) hg' _ _ rfl rfl (by intro h; cases h)
     case dqnDec =>
       have h1 := hdec hpc
       simp only [step, hg, hpc] at h
